@@ -240,7 +240,9 @@ def C10(ctx):
     vyukov.hash_agreement(ctx)
     vyukov.extension_only_when_full(ctx)
     queues.util_pure_functions(ctx)
-    ctx.only_skip = ("VHM.iterator-lock", "SCQ.")
+    # the iterator's bucket lock is the same lock the updates serialise on: a lock released twice / dropped by an iterator operation lets two
+    # updates of one bucket overlap (seed C10-9), so the iterator-lock rules are part of C10 as well
+    ctx.only_skip = ("SCQ.",)
     vyukov.iterator_rules(ctx)
     vyukov.cursor_prev_pairing(ctx)
     vyukov.cache_coherence(ctx)
